@@ -298,12 +298,7 @@ func (c *Ctx) c15Report(loopFn *ssa.Function) {
 		r.Undecided("R4", fname(loopFn)+":read", c.fpos(loopFn), "no read call in the connection loop")
 		return
 	}
-	var errv ssa.Value
-	for _, ref := range flow.Referrers(read) {
-		if ex, ok := ref.(*ssa.Extract); ok && isErrorType(ex.Type()) {
-			errv = ex
-		}
-	}
+	errv := errorResult(read)
 	eb := errorEdgeBlocks(read)
 	if errv == nil || len(eb) == 0 {
 		r.Fail("R4", fname(loopFn)+":read-error-edge", c.pos(read), "the error result of the per-iteration read is not tested against nil")
